@@ -310,6 +310,20 @@ func c20DistinctSettings(w *World, r *Report) {
 			}
 		}
 		r.Check(len(vars) == 1 && vars[0] != "<non-constant>" && okRet, "R6", "env/"+g+"/reads-one-variable", f.Pos(), "%s returns a value derived from exactly one environment variable %v", g, vars)
+		// durations are configured in seconds
+		if strings.Contains(f.Signature.Results().At(0).Type().String(), "time.Duration") {
+			okUnit := false
+			for _, alt := range ReturnAlts(f, 0) {
+				if k, isK := peel(alt.Val).(*ssa.Const); isK && (k.Value == nil || k.Value.ExactString() == "0") {
+					continue
+				}
+				nv, factor, shape := productOf(alt.Val, func(v ssa.Value) bool {
+					return isCallTo0(v, "strconv.Atoi") || strings.HasSuffix(Path(v), "#0") && strings.Contains(Path(v), "strconv.Atoi(")
+				})
+				okUnit = shape && nv == 1 && factor == 1e9
+			}
+			r.Check(okUnit, "R6", "env/"+g+"/seconds", f.Pos(), "%s converts the configured number to seconds (x time.Second)", g)
+		}
 		for _, v := range vars {
 			readBy[v] = append(readBy[v], g)
 		}
